@@ -26,6 +26,7 @@ func runC15(w *World, r *Report) {
 	r.Rule("C15-R5", "name keys are injective", "each util.Get*InfoKeys joins its name components so that distinct (database, collection, partition) tuples give distinct keys: between two adjacent name components the format has a character that cannot occur in a Milvus name (names are letters, digits, '_' and '$')", 3)
 	ruleC15KeyInjective(w, r)
 	ruleKeyComponentsVerbatim(w, r, "C15-R11")
+	c15TombstoneExact(w, r)
 
 	fn := w.Func(pkgReader, "EtcdOp", "GetAllDroppedObj")
 	if fn == nil {
@@ -509,10 +510,15 @@ func ruleC15KeyInjective(w *World, r *Report) {
 // is. A component that went through a trimming / cutting / case-folding / replacing function no longer identifies the
 // object (strings.TrimRight(key, "_c") strips a character SET: "doc" and "do" give the same key).
 func ruleKeyComponentsVerbatim(w *World, r *Report, rule string) {
-	r.Rule(rule, "key components are used verbatim", "in util.GetDBInfoKeys / GetCollectionInfoKeys / GetPartitionInfoKeys (and what they call) no string that reaches the returned keys is the result of strings.Trim*/Cut*/Replace*/ToLower/ToUpper/Fields/Split/Title or a slice expression of a name: the key contains each name unmodified", 3)
+	r.Rule(rule, "key components are used verbatim", "in util.GetDBInfoKeys / GetCollectionInfoKeys / GetPartitionInfoKeys — for C09: util.getMilvusClientResourceName, the key of the per-database client cache — (and what they call) no string that reaches the returned keys is the result of strings.Trim*/Cut*/Replace*/ToLower/ToUpper/Fields/Split/Title or a slice expression of a name: the key contains each name unmodified", 1)
 	lossy := map[string]bool{"Trim": true, "TrimRight": true, "TrimLeft": true, "TrimSpace": true, "TrimFunc": true, "TrimPrefix": true, "TrimSuffix": true, "Cut": true, "CutPrefix": true, "CutSuffix": true,
 		"Replace": true, "ReplaceAll": true, "ToLower": true, "ToUpper": true, "Title": true, "Fields": true, "Split": true, "SplitN": true, "Map": true}
-	for _, name := range []string{"GetDBInfoKeys", "GetCollectionInfoKeys", "GetPartitionInfoKeys"} {
+	names := []string{"GetDBInfoKeys", "GetCollectionInfoKeys", "GetPartitionInfoKeys"}
+	if strings.HasPrefix(rule, "C09") {
+		// the key of the per-database client cache: address + database
+		names = []string{"getMilvusClientResourceName"}
+	}
+	for _, name := range names {
 		f := w.Func(pkgUtil, "", name)
 		cons := "util." + name + " | components verbatim"
 		if f == nil {
@@ -547,4 +553,38 @@ func ruleKeyComponentsVerbatim(w *World, r *Report, rule string) {
 		visit(f, 0)
 		r.Check(bad == "", rule, cons, f.Pos(), "names reach the key unmodified", "a component of the key goes through "+bad+": different names can give the same key (a cut-set trim removes every trailing character of the set, not a suffix), so the drop time recorded for one object is found for another")
 	}
+}
+
+// c15TombstoneExact (C15-R12): a catalog value is a tombstone when it IS the tombstone marker. A suffix / prefix /
+// substring test takes a live record that merely ends in those bytes for a dropped object.
+func c15TombstoneExact(w *World, r *Report) {
+	r.Rule("C15-R12", "a tombstone is the exact marker", "util.IsTombstone compares the whole value with SuffixSnapshotTombstone (bytes.Equal / ==), not with HasSuffix / HasPrefix / Contains / Index", 1)
+	f := w.Func(pkgUtil, "", "IsTombstone")
+	if f == nil {
+		r.Undecided("C15-R12", "util.IsTombstone", 0, "anchor not found")
+		return
+	}
+	bad, eq := "", false
+	eachInstr(f, func(in ssa.Instruction) {
+		c, ok := in.(*ssa.Call)
+		if !ok {
+			return
+		}
+		s := callSym(c.Common())
+		if s.pkg != "bytes" && s.pkg != "strings" {
+			return
+		}
+		switch s.name {
+		case "Equal", "EqualFold", "Compare":
+			eq = true
+		case "HasSuffix", "HasPrefix", "Contains", "Index", "LastIndex", "ContainsAny":
+			bad = s.pkg + "." + s.name
+		}
+	})
+	eachInstr(f, func(in ssa.Instruction) {
+		if bo, ok := in.(*ssa.BinOp); ok && bo.Op == token.EQL && isStringType(bo.X.Type()) {
+			eq = true
+		}
+	})
+	r.Check(bad == "" && eq, "C15-R12", "util.IsTombstone | whole-value comparison", f.Pos(), "bytes.Equal with the marker", "IsTombstone decides with "+bad+" (or without an equality test): a live database / collection record whose serialised value happens to end in (contain) the marker bytes is treated as dropped, gets a drop horizon in the snapshot and its operations are skipped")
 }
